@@ -1252,10 +1252,11 @@ theorem json_flat_names (t : Esc) (canon : List Char → Option (List Char)) (pr
 theorem json_path_prefix_refused :
     rowObjP [[['a']], [['a'], ['b']]] [.int ['1'], .int ['2']] = none := by rfl
 
-theorem json_path_prefix_duplicate :
-    rowObjP [[['a'], ['b']], [['a']]] [.int ['1'], .int ['2']]
-      = some (.obj [(['a'], .obj [(['b'], .num ['1'])]), (['a'], .num ['2'])]) ∧
-    getPath [['a']] [(['a'], .obj [(['b'], .num ['1'])]), (['a'], .num ['2'])] = some (.obj [(['b'], .num ['1'])]) := by
+/-- the longer path first, then its prefix: refused as well (since F103, 868dfbb; before, the record was written
+    with the member `a` twice and read back with one column) -/
+theorem json_path_prefix_after_longer_refused :
+    rowObjP [[['a'], ['b']], [['a']]] [.int ['1'], .int ['2']] = none ∧
+    rowObjP [[['a'], ['b'], ['c']], [['a'], ['b']]] [.int ['1'], .int ['2']] = none := by
   exact ⟨rfl, rfl⟩
 
 theorem json_path_duplicate_name :
@@ -1267,6 +1268,105 @@ theorem json_path_syntax :
     parsePath ['\\', '.', 'b'] = some [['\\'], ['b']] ∧
     parsePath [] = some [[]] := by
   refine ⟨by decide, by decide, by decide, by decide, by decide, rfl⟩
+
+/-! ### refuse or spell, for LISTS of column names
+
+  `pathsSpellable` (Csvq.Model.JsonPath, the decision the op `c02.jspell` answers with) is the predicate of
+  `json_paths_roundtrip`, as a computation:
+    `paths_spellable_iff`               `true` exactly when every name parses and no path is a prefix of another;
+    `json_spellable_written`            the lists it accepts ARE written, every record carrying exactly its (path, value)
+                                        pairs — the "spell" half of the law holds for the code;
+    `json_unparsable_refused`           a name that is no path (an empty segment) is refused by both writers — that part of
+                                        the "refuse" half holds too;
+  the full "refuse" half
+      ∀ names, pathsSpellable names = false → the writers refuse            (WANTED — does not hold)
+  fails for the code as it is: a name that is a proper prefix path of an EARLIER name, and duplicates, are written
+  (`json_refuse_or_spell_counterexample`), while the same two names in the other order are refused
+  (`json_path_prefix_refused`).  The stream reports it on the real encoder (op c02.jspell, law
+  refuse_or_spell:<fmt>:conflicting_paths_written). -/
+
+theorem unrelatedB_iff (p q : List (List Char)) : unrelatedB p q = true ↔ Unrelated p q := by
+  have h (a b : List (List Char)) : a.isPrefixOf b = false ↔ ¬ a <+: b := by
+    constructor
+    · intro hf hp
+      rw [List.isPrefixOf_iff_prefix.mpr hp] at hf
+      cases hf
+    · intro hn
+      cases hb : a.isPrefixOf b with
+      | false => rfl
+      | true => exact absurd (List.isPrefixOf_iff_prefix.mp hb) hn
+  simp [unrelatedB, Unrelated, h]
+
+theorem pairwiseUnrelatedB_iff (ps : List (List (List Char))) :
+    pairwiseUnrelatedB ps = true ↔ ps.Pairwise Unrelated := by
+  induction ps with
+  | nil => simp [pairwiseUnrelatedB]
+  | cons p ps ih =>
+    simp only [pairwiseUnrelatedB, Bool.and_eq_true, List.all_eq_true, List.pairwise_cons, ih]
+    constructor
+    · intro h; exact ⟨fun q hq => (unrelatedB_iff p q).mp (h.1 q hq), h.2⟩
+    · intro h; exact ⟨fun q hq => (unrelatedB_iff p q).mpr (h.1 q hq), h.2⟩
+
+theorem paths_spellable_iff (names : List (List Char)) :
+    pathsSpellable names = true ↔ ∃ ps, mapMOpt parsePath names = some ps ∧ ps.Pairwise Unrelated := by
+  unfold pathsSpellable
+  cases h : mapMOpt parsePath names with
+  | none => simp
+  | some ps => simp [pairwiseUnrelatedB_iff]
+
+theorem mapMOpt_mem {α β : Type} (f : α → Option β) :
+    ∀ (xs : List α) (ys : List β), mapMOpt f xs = some ys → ∀ y ∈ ys, ∃ x ∈ xs, f x = some y := by
+  intro xs
+  induction xs with
+  | nil => intro ys h y hy; simp [mapMOpt] at h; subst h; simp at hy
+  | cons x xs ih =>
+    intro ys h y hy
+    simp only [mapMOpt] at h
+    cases hx : f x with
+    | none => simp [hx] at h
+    | some y0 =>
+      cases hr : mapMOpt f xs with
+      | none => simp [hx, hr] at h
+      | some ys0 =>
+        simp [hx, hr] at h
+        subst h
+        rcases List.mem_cons.mp hy with rfl | hy'
+        · exact ⟨x, by simp, hx⟩
+        · obtain ⟨x', hx', hf⟩ := ih ys0 hr y hy'
+          exact ⟨x', by simp [hx'], hf⟩
+
+/-- **Spell**: the lists of names the law accepts are written, and the record carries exactly the table's record. -/
+theorem json_spellable_written (names : List (List Char)) (ps : List (List (List Char))) (vs : List JVal)
+    (hs : pathsSpellable names = true) (hp : mapMOpt parsePath names = some ps) (hlen : ps.length = vs.length) :
+    ∃ ms, rowObjP ps vs = some (.obj ms) ∧
+      (∀ q w, (q, w) ∈ flattenMembers ms ↔ (q, w) ∈ ps.zip (vs.map toStructure)) ∧
+      (∀ q w, (q, w) ∈ ps.zip (vs.map toStructure) → getPath q ms = some w) := by
+  obtain ⟨ps', hp', hun⟩ := (paths_spellable_iff names).mp hs
+  rw [hp] at hp'
+  injection hp' with hp'
+  subst hp'
+  refine json_paths_roundtrip ps vs hlen ?_ hun
+  intro p hpm
+  obtain ⟨s, _, hsp⟩ := mapMOpt_mem parsePath names ps hp p hpm
+  exact parse_path_segments s p hsp
+
+/-- **Refuse** (the part that holds): a name with an empty segment stops both writers before anything is written. -/
+theorem json_unparsable_refused (t : Esc) (canon : List Char → Option (List Char)) (pretty : Option LB) (lb : LB)
+    (tb : Json.Table) (h : mapMOpt parsePath tb.header = none) :
+    pathsSpellable tb.header = false ∧ encodeJsonP t canon pretty tb = none ∧ encodeJsonlP t canon lb tb = none := by
+  simp [pathsSpellable, encodeJsonP, encodeJsonlP, h]
+
+/-- the full "refuse" half does not hold for the code: a repeated name (`a`, `a`) must be refused and is written by
+    both writers (known finding F40); the two orders of a path and its prefix are both refused (F103 repaired). -/
+theorem json_refuse_or_spell_counterexample :
+    pathsSpellable [['a', '.', 'b'], ['a']] = false ∧ pathsSpellable [['a'], ['a', '.', 'b']] = false ∧
+    pathsSpellable [['a'], ['a']] = false ∧
+    rowObjP [[['a'], ['b']], [['a']]] [.int ['1'], .int ['2']] = none ∧
+    (rowObjP [[['a']], [['a']]] [.int ['1'], .int ['2']]).isSome = true ∧
+    rowObjP [[['a']], [['a'], ['b']]] [.int ['1'], .int ['2']] = none := by
+  refine ⟨by decide, by decide, by decide, rfl, rfl, rfl⟩
+
+example : pathsSpellable [['a', '.', 'b'], ['a', '.', 'c'], ['d']] = true := by decide
 
 end P
 
@@ -1501,10 +1601,11 @@ theorem gen_detector_uses_eq_ref :
   ⟨rfl, rfl⟩
 
 /-- **`FileInfo.ExportOptions`**: every attribute the file carries overrides the session's option,
-    unconditionally (C02-m8 made this depend on the format and lost TSV). -/
+    unconditionally (C02-m8 made this depend on the format and lost TSV); the session's terminal colours never
+    reach a table file (F102: `--color --pretty-print` wrote escape sequences into committed JSON files). -/
 theorem gen_export_options_eq_ref :
     exportOptionsMap =
-  [("Format", "Format"), ("Delimiter", "Delimiter"), ("DelimiterPositions", "DelimiterPositions"), ("SingleLine", "SingleLine"), ("Encoding", "Encoding"), ("LineBreak", "LineBreak"), ("WithoutHeader", "NoHeader"), ("EncloseAll", "EncloseAll"), ("JsonEscape", "JsonEscape"), ("PrettyPrint", "PrettyPrint")] :=
+  [("Format", "Format"), ("Delimiter", "Delimiter"), ("DelimiterPositions", "DelimiterPositions"), ("SingleLine", "SingleLine"), ("Encoding", "Encoding"), ("LineBreak", "LineBreak"), ("WithoutHeader", "NoHeader"), ("EncloseAll", "EncloseAll"), ("JsonEscape", "JsonEscape"), ("PrettyPrint", "PrettyPrint"), ("Color", "const false")] :=
   rfl
 
 /-- **the loaders' stores into `FileInfo`**: the encoding is refined by `DetectInSpecifiedEncoding` for
